@@ -73,3 +73,20 @@ VARIANTS += [
         (ORE, "    rest_scores = score_table[..., 0]\n", "    rest_scores = -score_table[..., 0] if maximize else score_table[..., 0]\n"),
         (ORE, STAGE2_SEL, "        est_idx, gt_idx = np.unravel_index(np.nanargmin(rest_scores), rest_scores.shape)")]),
 ]
+
+# seeded (round 2)
+_SEL1 = '        est_idx, gt_idx = (\n            np.unravel_index(np.nanargmax(masked_scores), masked_scores.shape)\n            if maximize\n            else np.unravel_index(np.nanargmin(masked_scores), masked_scores.shape)\n        )'
+_SEL2 = '        est_idx, gt_idx = (\n            np.unravel_index(np.nanargmax(rest_scores), rest_scores.shape)\n            if maximize\n            else np.unravel_index(np.nanargmin(rest_scores), rest_scores.shape)\n        )'
+_HELP = 'def _select_best_pair(scores: np.ndarray, maximize: bool = False) -> Tuple[int, int]:\n    flat_idx = np.nanargmax(scores) if maximize else np.nanargmin(scores)\n    return np.unravel_index(flat_idx, scores.shape)\n\n\ndef _get_matching_module('
+VARIANTS += [
+    dict(name="seed2-helper-default-minimises-in-stage2", kind="break", rule="C02-stages", edits=[
+        (ORE, _SEL1, "        est_idx, gt_idx = _select_best_pair(masked_scores, maximize)"),
+        (ORE, _SEL2, "        est_idx, gt_idx = _select_best_pair(rest_scores)"),
+        (ORE, "def _get_matching_module(", _HELP)]),
+    dict(name="selection-moved-into-helper", kind="benign", edits=[
+        (ORE, _SEL1, "        est_idx, gt_idx = _select_best_pair(masked_scores, maximize)"),
+        (ORE, _SEL2, "        est_idx, gt_idx = _select_best_pair(rest_scores, maximize)"),
+        (ORE, "def _get_matching_module(", _HELP)]),
+    dict(name="seed2-float32-score-table", kind="break", rule="C02-score-table", edits=[(ORE,
+        "np.full((num_row, num_col, 2), (np.nan, False))", "np.full((num_row, num_col, 2), (np.nan, False), dtype=np.float32)")]),
+]
